@@ -1,6 +1,7 @@
 """Re-run the CURRENT quick check of a property against one archived seeded change.
 
-usage: recheck_seeded.py <PROP> <k>      (prints one JSON line; updates seeded/<PROP>/<k>/meta.json["recheck"])
+usage: recheck_seeded.py <PROP> <k> [<OTHER>]   (prints one JSON line; updates seeded/<PROP>/<k>/meta.json["recheck"];
+       with <OTHER> the check of that other property is run instead and stored under meta["recheck_by"][<OTHER>])
 The patch is applied to a scratch worktree of /repo's HEAD under /var/tmp (removed afterwards).  A patch that
 no longer applies (the library moved on: later fix: commits) is reported as "stale".
 """
@@ -15,8 +16,9 @@ def sh(cmd, cwd=None, env=None):
 
 def main():
     pid, k = sys.argv[1].upper(), sys.argv[2]
+    runner = sys.argv[3].upper() if len(sys.argv) > 3 else pid
     d = os.path.join(V, "seeded", pid, k)
-    wt = "/var/tmp/recheck_%s_%s" % (pid, k)
+    wt = "/var/tmp/recheck_%s_%s_%s" % (pid, k, runner)
     sh(["git", "-C", "/repo", "worktree", "remove", "--force", wt])
     rc, out = sh(["git", "-C", "/repo", "worktree", "add", "-q", "--detach", wt, "HEAD"])
     res = {"property": pid, "k": k}
@@ -35,20 +37,24 @@ def main():
             env = dict(os.environ, HGXVERIF_REPO=wt, PYTHONHASHSEED="0", VERIF_SEED="1",
                        HGXVERIF_EVIDENCE_DIR="/var/tmp/recheck_evidence")
             t0 = time.time()
-            rc, out = sh(["/venv/bin/python", "-m", "hgxverif.run", pid, "--tier", "quick"], cwd=V, env=env)
+            rc, out = sh(["/venv/bin/python", "-m", "hgxverif.run", runner, "--tier", "quick"], cwd=V, env=env)
             lines = [l.strip()[:240] for l in out.splitlines() if l.strip().startswith("clause")]
             res["verdict"] = {0: "MISSED", 1: "caught", 2: "harness-error"}.get(rc, "?")
             res["wall_s"] = round(time.time() - t0, 1)
             res["first"] = lines[:1]
     finally:
         sh(["git", "-C", "/repo", "worktree", "remove", "--force", wt])
-        rd = os.path.join(V, "replays", pid)
+        rd = os.path.join(V, "replays", runner)
         for f in os.listdir(rd) if os.path.isdir(rd) else []:
             if f.startswith("found-"):
                 os.remove(os.path.join(rd, f))
     mf = os.path.join(d, "meta.json")
     m = json.load(open(mf))
-    m["recheck"] = res
+    if runner == pid:
+        m["recheck"] = res
+    else:
+        res["checked_by"] = runner
+        m.setdefault("recheck_by", {})[runner] = res
     json.dump(m, open(mf, "w"), indent=1)
     print(json.dumps(res))
 
